@@ -101,20 +101,50 @@ Theorem C16_norm_stab : forall (ilog2 : R -> Z) (thr : R) (Y : list (core R)),
 Proof. exact norm_stab_spec. Qed.
 
 (* ------------------------------------------------------------------------------------------------
-   accuracy(Y1, Y2): every branch.  h1, h2 = twice the exponents returned by norm, so
-   p1 - p2 > 500  <->  h1 - h2 > 1000.   ||.|| = sqrt <.,.>  (nrm2)
+   accuracy(Y1, Y2): every branch (the code since commit 0f9009d).  h1, h2 = twice the exponents returned by norm, so
+   p1 - p2 > 500  <->  h1 - h2 > 1000.   ||.|| = sqrt <.,.>  (nrm2);  z1, z2 the mantissas returned by norm.
+   * a vanishing difference (z1 = 0) against a reference with |z2| >= tiny gives 0 = the relative distance,
+     whatever exponent the vanishing product was left with;
+   * otherwise the saturation values big (1e299) / 0 beyond +-1000, the sentinel -1 for |z2| < tiny, and in the
+     middle the quotient ||Y1 - Y2|| / ||Y2||.
    ------------------------------------------------------------------------------------------------ *)
 Theorem C16_accuracy_stab : forall (ilog2 : R -> Z) (thr : R) (isinf : R -> bool),
   (forall x, isinf x = false) -> forall (big tiny : R) (Y1 Y2 : list (core R)), (0 < tiny)%R ->
+  let z1 := fst (norm_stab OR ilog2 thr (sub OR Y1 Y2)) in
   let h1 := snd (norm_stab OR ilog2 thr (sub OR Y1 Y2)) in
   let h2 := snd (norm_stab OR ilog2 thr Y2) in
   let z2 := fst (norm_stab OR ilog2 thr Y2) in
   let r := accuracy OR ilog2 isinf thr big tiny Y1 Y2 in
-  ((h1 - h2 > 1000)%Z -> r = big) /\
-  ((h1 - h2 < -1000)%Z -> r = 0%R) /\
+  (z1 = 0%R -> (tiny <= Rabs z2)%R -> r = 0%R /\ nrm2 (sub OR Y1 Y2) = 0%R) /\
+  (~ (z1 = 0%R /\ (tiny <= Rabs z2)%R) -> (h1 - h2 > 1000)%Z -> r = big) /\
+  (~ (z1 = 0%R /\ (tiny <= Rabs z2)%R) -> (h1 - h2 < -1000)%Z -> r = 0%R) /\
   ((-1000 <= h1 - h2 <= 1000)%Z -> (Rabs z2 < tiny)%R -> r = (-1)%R) /\
   ((-1000 <= h1 - h2 <= 1000)%Z -> (tiny <= Rabs z2)%R -> r = (nrm2 (sub OR Y1 Y2) / nrm2 Y2)%R).
 Proof. exact accuracy_spec. Qed.
+(* equal tensors (||Y1 - Y2|| = 0) against a reference whose mantissa is not negligible: accuracy = 0.
+   (Before 0f9009d the model returned big = 1e299 here whenever the last core was below 2^-500.) *)
+Theorem C16_accuracy_zero_difference : forall (ilog2 : R -> Z) (thr : R) (isinf : R -> bool),
+  (forall x, isinf x = false) -> forall (big tiny : R) (Y1 Y2 : list (core R)), (0 < tiny)%R ->
+  (tiny <= Rabs (fst (norm_stab OR ilog2 thr Y2)))%R -> nrm2 (sub OR Y1 Y2) = 0%R ->
+  accuracy OR ilog2 isinf thr big tiny Y1 Y2 = 0%R.
+Proof. exact accuracy_zero_difference. Qed.
+
+(* the mantissa returned by norm(use_stab=True) (default threshold 0): 0, or z > 0 with lo <= z^2 < 2 *)
+Theorem C16_norm_stab_mantissa : forall (ilog2 : R -> Z) (lo : R) (Y : list (core R)) d0, ilog2_ok lo ilog2 ->
+  Y <> [] -> cr2 (last Y d0) = 1 ->
+  let z := fst (norm_stab OR ilog2 0%R Y) in z = 0%R \/ ((0 < z)%R /\ (lo <= z * z < 2)%R).
+Proof. exact norm_stab_mantissa. Qed.
+(* the saturation branches are taken only when the true relative distance is beyond 2^+-500: for mantissas of the kind
+   C16_norm_stab_mantissa gives for non-zero tensors under the exact log2 contract (z > 0, 1 <= z^2 < 2) *)
+Theorem C16_accuracy_saturation_sound : forall (ilog2 : R -> Z) (thr : R) (Y1 Y2 : list (core R)),
+  let z1 := fst (norm_stab OR ilog2 thr (sub OR Y1 Y2)) in
+  let h1 := snd (norm_stab OR ilog2 thr (sub OR Y1 Y2)) in
+  let z2 := fst (norm_stab OR ilog2 thr Y2) in
+  let h2 := snd (norm_stab OR ilog2 thr Y2) in
+  (0 < z1)%R -> (1 <= z1 * z1 < 2)%R -> (0 < z2)%R -> (1 <= z2 * z2 < 2)%R ->
+  ((h1 - h2 > 1000)%Z -> (powerRZ 2 500 < nrm2 (sub OR Y1 Y2) / nrm2 Y2)%R) /\
+  ((h1 - h2 < -1000)%Z -> (nrm2 (sub OR Y1 Y2) / nrm2 Y2 < powerRZ 2 (-500))%R).
+Proof. exact accuracy_saturation_sound. Qed.
 
 (* ------------------------------------------------------------------------------------------------
    orthogonalize(Y, k, use_stab=True) = (Z, p):  2^p * Z = Y entrywise, for every oracle pair meeting
@@ -194,3 +224,14 @@ Proof.
   eexists. eexists. split; [vm_compute; reflexivity|]. split; [reflexivity|]. split; [vm_compute; reflexivity|].
   cbn. repeat split; lia.
 Qed.
+(* accuracy on equal tensors with a tiny last core, Y = [ones(1,2,1), 2^-505 * ones(1,2,1)] (the input of the repair
+   0f9009d): the difference vanishes with the exponent frozen at 1 (norm = (0, 1/2)), norm(Y) = (1, -1008/2);
+   the current function returns 0, its tail (= the whole function before the repair) saturates to big *)
+Definition exE : list (core Dy) :=
+  [mk_core 1 2 1 [[[mkDy 1 0]; [mkDy 1 0]]]; mk_core 1 2 1 [[[mkDy 1 (-505)]; [mkDy 1 (-505)]]]].
+Example C16_example_accuracy_equal :
+  norm_stab ODy Dy_ilog2 Dy_0 (sub ODy exE exE) = (Dy_0, 1%Z) /\
+  norm_stab ODy Dy_ilog2 Dy_0 exE = (Dy_1, (-1008)%Z) /\
+  accuracy ODy Dy_ilog2 (fun _ => false) Dy_0 (Dy_pow2 993) (Dy_pow2 (-333)) exE exE = Dy_0 /\
+  accuracy_tail ODy (fun _ => false) (Dy_pow2 993) (Dy_pow2 (-333)) Dy_0 1 Dy_1 (-1008) = Dy_pow2 993.
+Proof. vm_compute. repeat split; reflexivity. Qed.
